@@ -76,7 +76,7 @@ CONFIGS = {
     "w2d2": _cfg(OPTS=dict(RLC_WIDTH=2, RLC_DEPTH=2)),
     "w6d8": _cfg(OPTS=dict(RLC_WIDTH=6, RLC_DEPTH=8)),
     "dyn": _cfg(OPTS=dict(ALLOC="DYNAMIC"),
-                EXTRA_LINK="-Wl,--wrap=malloc,--wrap=calloc,--wrap=realloc,--wrap=posix_memalign",
+                EXTRA_LINK="-Wl,--wrap=malloc,--wrap=calloc,--wrap=realloc,--wrap=posix_memalign,--wrap=free",
                 RUNNER_CFLAGS="-DVS_WRAP_ALLOC"),
     "msan": _cfg(CFLAGS=COMMON + " -fsanitize=memory -fsanitize-memory-track-origins=1",
                  LDFLAGS="-fsanitize=memory"),
